@@ -57,13 +57,13 @@ func c12Backends() []c12Backend {
 			o := glsl.DefaultOptions()
 			o.LangVersion = glsl.Version{Major: 4, Minor: 50}
 			o.EntryPoint = m.EntryPoints[0].Name
-			o.PipelineConstants = ir.PipelineConstants{"0": 2}
+			o.PipelineConstants = c12AllOverrides(m)
 			s, _, err := glsl.Compile(m, o)
 			return []byte(s), err
 		}},
 		{"msl+pipeline-constants", true, func(m *ir.Module) ([]byte, error) {
 			o := msl.DefaultOptions()
-			o.PipelineConstants = map[string]float64{"0": 2}
+			o.PipelineConstants = c12AllOverrides(m)
 			s, _, err := msl.Compile(m, o)
 			return []byte(s), err
 		}},
@@ -169,9 +169,11 @@ func c12History(c *run.Ctx, id string, srcs []string, i int) run.Outcome {
 	for _, b := range bs[4:] {
 		m := lower(src)
 		d0 := irstrict.Hash(m)
+		s0 := c12Sections(m)
 		b.f(m)
 		if irstrict.Hash(m) != d0 {
-			o := c12Viol(c, id, "module-mutated:"+b.name, fmt.Sprintf("%s changed the module it was given", b.name), src, cov)
+			changed := c12ChangedSections(s0, c12Sections(m))
+			o := c12Viol(c, id, "module-mutated:"+b.name, fmt.Sprintf("%s changed the module it was given (sections: %s)", b.name, changed), src, cov)
 			if c.KnownMatch(o.Class, o.Reason) {
 				cov["known-finding-instances"]++
 				continue
@@ -188,17 +190,22 @@ func c12History(c *run.Ctx, id string, srcs []string, i int) run.Outcome {
 	// reused spirv.Backend instance over a random sequence of modules
 	be := spirv.NewBackend(spirv.Options{Version: spirv.Version1_3})
 	var seq []string
-	for k := 0; k < 4; k++ {
+	for k := 0; k < 5; k++ {
 		j := r.Intn(len(srcs))
-		seq = append(seq, srcs[j])
-		mj := lower(srcs[j])
+		sj := srcs[j]
+		if r.Chance(1, 3) {
+			// a render / multi-entry module (stage builtins such as sample_mask, interface variables) between the compute ones
+			sj = c17Gen(r.Split()).src
+		}
+		seq = append(seq, sj)
+		mj := lower(sj)
 		if mj == nil {
 			continue
 		}
 		got := outOrErr(be.Compile(mj))
-		want := outOrErr(spirv.NewBackend(spirv.Options{Version: spirv.Version1_3}).Compile(lower(srcs[j])))
+		want := outOrErr(spirv.NewBackend(spirv.Options{Version: spirv.Version1_3}).Compile(lower(sj)))
 		if !bytes.Equal(got, want) {
-			o := c12Viol(c, id, "backend-reuse", fmt.Sprintf("reused spirv.Backend: output for program %d at position %d of the sequence differs from a fresh backend's", j, k), srcs[j], cov)
+			o := c12Viol(c, id, "backend-reuse", fmt.Sprintf("reused spirv.Backend: output for program %d at position %d of the sequence differs from a fresh backend's", j, k), sj, cov)
 			o.Witness["sequence"] = seq
 			return o
 		}
@@ -381,4 +388,44 @@ func c12Race(c *run.Ctx) {
 			c.Note("known finding F57 (module mutation races) no longer reproduces")
 		}
 	}
+}
+
+// c12AllOverrides supplies a value for every override of the module (by @id or by name).
+func c12AllOverrides(m *ir.Module) map[string]float64 {
+	pc := map[string]float64{"0": 2}
+	for _, o := range m.Overrides {
+		if o.ID != nil {
+			pc[fmt.Sprint(*o.ID)] = 2
+		} else if o.Name != "" {
+			pc[o.Name] = 2
+		}
+	}
+	return pc
+}
+
+// c12Sections: canonical dumps of the parts of a module, to say which of them a call changed.
+func c12Sections(m *ir.Module) map[string]string {
+	return map[string]string{
+		"Types":             irstrict.Dump(&ir.Module{Types: m.Types}, false),
+		"Constants":         irstrict.Dump(&ir.Module{Constants: m.Constants}, false),
+		"GlobalVariables":   irstrict.Dump(&ir.Module{GlobalVariables: m.GlobalVariables}, false),
+		"GlobalExpressions": irstrict.Dump(&ir.Module{GlobalExpressions: m.GlobalExpressions}, false),
+		"Overrides":         irstrict.Dump(&ir.Module{Overrides: m.Overrides}, false),
+		"Functions":         irstrict.Dump(&ir.Module{Functions: m.Functions}, false),
+		"EntryPoints":       irstrict.Dump(&ir.Module{EntryPoints: m.EntryPoints}, false),
+	}
+}
+
+func c12ChangedSections(a, b map[string]string) string {
+	var out []string
+	for k := range a {
+		if a[k] != b[k] {
+			out = append(out, k)
+		}
+	}
+	sort.Strings(out)
+	if len(out) == 0 {
+		return "other"
+	}
+	return strings.Join(out, "+")
 }
